@@ -208,6 +208,51 @@ def _attrdef(run, repo, world, leaf_objs):
                                          sorted(shape)),
                where(repo.mod(owner.mod), fn), trivial=True)
     run.floor("decodable classes with a __str__", n, 100)
+    # fixed-width byte renderings inside __str__: wide enough for every
+    # frame length (pack_len / to_bytes raise OverflowError otherwise)
+    from .. import pred
+    run.rule("R-STR-WIDTH", "a byte count handed to pack_len()/to_bytes() "
+             "while rendering is >= ceil(bits / 8) for every frame length "
+             "(closed form in n = 8q + r, all residues)")
+    done = set()
+    for c in sorted(seen_cls, key=lambda k: k.qname):
+        r = c.lookup("__str__")
+        owner, kind, fn = r
+        if id(fn) in done:
+            continue
+        done.add(id(fn))
+        for call in ast.walk(fn):
+            if not (isinstance(call, ast.Call) and isinstance(
+                    call.func, ast.Attribute) and call.func.attr in (
+                        "pack_len", "to_bytes") and call.args):
+                continue
+            recv = unparse(call.func.value)
+            if call.func.attr == "to_bytes" and not recv.endswith("._data"):
+                continue
+            names = ("len(%s)" % recv, "len(self._data)", "len(self.frame)",
+                     "len(self)")
+            short = None
+            for res in range(8):
+                try:
+                    q = pred.residue_eval(call.args[0], names, 8, res)
+                except pred.Unrecognised as e:
+                    raise AnalysisError(
+                        "R-STR-WIDTH: %s.__str__ renders with a byte count "
+                        "`%s` outside the width forms read (%s)" % (
+                            owner.qname, unparse(call.args[0]), e))
+                need_b = 1 if res else 0
+                # q.a*q + q.b >= q + need_b for all q >= 0
+                if q.a < 1 or q.b < need_b:
+                    short = (res, q)
+                    break
+            run.ob("R-STR-WIDTH", "%s.__str__#%s" % (owner.qname,
+                                                     call.func.attr),
+                   short is None,
+                   "frames of 8q+%s bits are rendered into %s bytes: "
+                   "%s raises OverflowError when a bit above that is set, so "
+                   "str() of the decoded command fails" % (
+                       short[0] if short else "", short[1] if short else "",
+                       call.func.attr), where(repo.mod(owner.mod), call))
 
 
 def _syntactic_attr_check(c, fn, obj):
